@@ -181,7 +181,7 @@ def main(argv=None):
         return 3
     P = PROPS[a.pid]
     thorough = a.tier == "thorough"
-    timeout_ms = 120000 if thorough else 30000
+    timeout_ms = 120000 if thorough else 60000
     filters = {}
     targets = []
     for t in P["targets"]:
@@ -217,6 +217,43 @@ def main(argv=None):
             for ob in r["obligations"]:
                 if ob["status"] == "proved":
                     ob.pop("smt2", None)
+    canary = {"run": 0, "killed": 0, "survived": []}
+    xcheck_txt = None
+    if thorough and "PYVC_REPO" not in os.environ:
+        # (1) CPython cross-check of the interpreter (bounded, engine self-test)
+        try:
+            xr = subprocess.run([sys.executable, "-m", "pyvc.xcheck", "--n", "60"], capture_output=True, text=True, timeout=900, cwd=HERE)
+            xcheck_txt = (xr.stdout.strip().splitlines() or ["?"])[-1]
+            if xr.returncode != 0:
+                engine_err_pre = [f"CPython cross-check of the interpreter failed: {xcheck_txt}"]
+            else:
+                engine_err_pre = []
+        except subprocess.TimeoutExpired:
+            engine_err_pre = ["CPython cross-check timed out"]
+        # (2) canaries: seeded changes recorded as detected for this property must still be detected
+        resf = os.path.join(HERE, "seeded", "RESULTS.json")
+        seeded = json.load(open(resf)) if os.path.exists(resf) else {}
+        for name, r in sorted(seeded.items()):
+            if not name.startswith(a.pid + "_") or r.get("verdict") != "detected":
+                continue
+            wt = f"/tmp/pyvc_canary_{os.getpid()}_{name}"
+            try:
+                subprocess.run(["git", "-C", "/repo", "worktree", "add", "-q", "--detach", wt, "HEAD"], check=True, capture_output=True)
+                ap_ = subprocess.run(["git", "apply", "--3way", os.path.join(HERE, "seeded", name, "patch.diff")], cwd=wt, capture_output=True)
+                if ap_.returncode != 0:
+                    continue
+                env = dict(os.environ)
+                env["PYVC_REPO"] = wt
+                cr = subprocess.run([sys.executable, "-m", "pyvc.prop", a.pid, "--tier", "quick"], capture_output=True, text=True, env=env, cwd=HERE, timeout=3000)
+                canary["run"] += 1
+                if "VIOLATION property=" in cr.stdout:
+                    canary["killed"] += 1
+                else:
+                    canary["survived"].append(name)
+            finally:
+                subprocess.run(["git", "-C", "/repo", "worktree", "remove", "--force", wt], capture_output=True)
+    else:
+        engine_err_pre = []
     rc = 0
     lines = []
     n_obl = n_dis = 0
@@ -255,6 +292,9 @@ def main(argv=None):
                 undecided.append(f"{ob['name']}: solver gave no answer within {timeout_ms} ms")
     for name in disagreements:
         engine_err.append(f"solver disagreement on {name}: z3 unsat, cvc5 sat")
+    engine_err.extend(engine_err_pre)
+    for name in canary["survived"]:
+        engine_err.append(f"canary {name} (a seeded change known to break {a.pid}) is no longer detected")
     # report
     seen = set()
     nviol = 0
@@ -308,7 +348,8 @@ def main(argv=None):
             "backends": {"z3": "z3-solver 5.1.0 (python API), one query per obligation", **({"cvc5_second_opinion": cvc5_n} if thorough else {})},
             "solver_time_s": round(sum(ob["secs"] for r in results for ob in r["obligations"]), 2),
             "undecided": undecided, "engine_errors": engine_err,
-            "bounded_standins": P.get("bounded", []),
+            "bounded_standins": P.get("bounded", []) + ([f"CPython cross-check of the interpreter on concrete inputs (bounded, engine self-test): {xcheck_txt}"] if xcheck_txt else []),
+            "canaries": canary,
             "known_findings_printed": sorted(kf_hit),
             "evaluations": n_obl, "distinct_nontrivial": len({ob["name"] for r in results for ob in r["obligations"] if not ob["info"].get("trivial")}),
             "rule": "one evaluation = one verification condition (path x clause); distinct = distinct obligation names that are not trivially true",
